@@ -295,6 +295,94 @@ func c13Drive(w flamego.ResponseWriter, spy *rwSpy, m *rwModel, method string, o
 	return key, ""
 }
 
+// c13StrictSpy refuses status codes outside 100..999 with a panic, as net/http's writer does.
+type c13StrictSpy struct{ rwSpy }
+
+func (s *c13StrictSpy) WriteHeader(c int) {
+	if c < 100 || c > 999 {
+		panic(fmt.Sprintf("invalid WriteHeader code %v", c))
+	}
+	s.rwSpy.WriteHeader(c)
+}
+func (s *c13StrictSpy) Flush() { s.log = append(s.log, "F") }
+
+var c13FailOps = []string{"WriteHeader(201)", "WriteHeader(1000: refused by the underlying writer with a panic)", "WriteHeader(500)", `Write("ab")`, "Before(h:panics)", "Before(h1)", "Flush"}
+
+// c13Failing: sequences in which committing the status can fail with a panic (a before-function that panics, a
+// status code the underlying writer refuses); the driver recovers every panic and goes on, as Recovery and
+// handlers do. No model: what the statement says in every state, whatever failed before - at most one status
+// line at the underlying writer and no body byte or flush before it, Status() is 0 until then and that status
+// afterwards, Written() says the same, Size() is what was forwarded, HEAD forwards nothing, no function
+// registered with Before runs twice.
+func c13Failing(method string, ops []int) (bad string) {
+	spy := &c13StrictSpy{rwSpy{hdr: http.Header{}, limit: -1}}
+	w := flamego.NewResponseWriter(method, spy)
+	ran := map[int]int{}
+	nHooks := 0
+	for step, op := range ops {
+		func() {
+			defer func() { _ = recover() }()
+			switch op {
+			case 0:
+				w.WriteHeader(201)
+			case 1:
+				w.WriteHeader(1000)
+			case 2:
+				w.WriteHeader(500)
+			case 3:
+				_, _ = w.Write([]byte("ab"))
+			case 4, 5:
+				id := nHooks
+				nHooks++
+				panics := op == 4
+				w.Before(func(flamego.ResponseWriter) {
+					ran[id]++
+					if panics {
+						panic("before-function panics")
+					}
+				})
+			case 6:
+				w.Flush()
+			}
+		}()
+		at := fmt.Sprintf("after step %d (%s)", step+1, c13FailOps[op])
+		status, nH, body := 0, 0, 0
+		for i, e := range spy.log {
+			switch e[0] {
+			case 'H':
+				nH++
+				fmt.Sscanf(e, "H%d", &status)
+				if nH > 1 {
+					return fmt.Sprintf("%s: the underlying writer received a second status line: %v", at, spy.log)
+				}
+				if i > 0 {
+					return fmt.Sprintf("%s: body or flush reached the underlying writer before the status line: %v", at, spy.log)
+				}
+			case 'B':
+				body += len(e) - 1
+				if method == http.MethodHead {
+					return fmt.Sprintf("%s: HEAD request forwarded body bytes: %v", at, spy.log)
+				}
+			}
+		}
+		if nH == 0 && len(spy.log) > 0 {
+			return fmt.Sprintf("%s: body or flush reached the underlying writer although no status line was ever sent (Status()=%d): %v", at, w.Status(), spy.log)
+		}
+		if w.Status() != status || w.Written() != (nH == 1) {
+			return fmt.Sprintf("%s: Status()=%d Written()=%v, the underlying writer has received %v", at, w.Status(), w.Written(), spy.log)
+		}
+		if w.Size() != body {
+			return fmt.Sprintf("%s: Size()=%d, %d body bytes were forwarded", at, w.Size(), body)
+		}
+		for id, n := range ran {
+			if n > 1 {
+				return fmt.Sprintf("%s: the %d. function registered with Before ran %d times", at, id+1, n)
+			}
+		}
+	}
+	return ""
+}
+
 // c13CountSpy counts the body bytes it is handed and keeps none of them.
 type c13CountSpy struct {
 	hdr   http.Header
@@ -540,6 +628,54 @@ func c13Run(r *core.Run) {
 	r.Merge(total)
 	c13FlameSeqs(r)
 	{
+		depth := 5
+		if r.Thorough() {
+			depth = 7
+		}
+		r.Bounds["failing_commits"] = fmt.Sprintf("GET and HEAD; every sequence of <=%d operations over %v, panics recovered by the driver; invariants of the statement after every step", depth, c13FailOps)
+		var seqs [][]int
+		var rec func(pre []int)
+		rec = func(pre []int) {
+			if len(pre) > 0 {
+				seqs = append(seqs, append([]int{}, pre...))
+			}
+			if len(pre) == depth {
+				return
+			}
+			for op := range c13FailOps {
+				rec(append(pre, op))
+			}
+		}
+		rec(nil)
+		r.Parallel(func(wk, nw int, l *core.Local) {
+			for si := wk; si < len(seqs); si += nw {
+				if (si/nw)%1024 == 0 && r.Expired() {
+					return
+				}
+				for _, method := range []string{"GET", "HEAD"} {
+					l.Evals++
+					l.Traces++
+					l.States++
+					l.Transitions += int64(len(seqs[si]))
+					l.NonTrivial++
+					if bad := c13Failing(method, seqs[si]); bad != "" {
+						var names []string
+						for _, op := range seqs[si] {
+							names = append(names, c13FailOps[op])
+						}
+						l.Class("mismatch")
+						l.Violate("failed-commit/"+method, bad, c13Case{Method: method + "/failing-commits", Ops: names})
+					} else {
+						l.Class("failing-commits")
+					}
+				}
+			}
+		})
+		if r.Expired() {
+			r.NotExhaustive("internal deadline (failing commits)")
+		}
+	}
+	{
 		l := core.NewLocal()
 		bad, n := c13Large()
 		l.Evals += int64(n)
@@ -611,6 +747,22 @@ func c13Replay(raw json.RawMessage) (bool, string) {
 	var c c13Case
 	if err := json.Unmarshal(raw, &c); err != nil {
 		return false, err.Error()
+	}
+	if strings.HasSuffix(c.Method, "/failing-commits") {
+		var ops []int
+		for _, n := range c.Ops {
+			found := false
+			for i, name := range c13FailOps {
+				if name == n {
+					ops, found = append(ops, i), true
+				}
+			}
+			if !found {
+				return false, "unknown op " + n
+			}
+		}
+		bad := c13Failing(strings.TrimSuffix(c.Method, "/failing-commits"), ops)
+		return bad != "", bad
 	}
 	if c.Method == "GET/17-writes-of-256-MiB" {
 		bad, _ := c13Large()
